@@ -128,3 +128,48 @@ Definition find_iterate {S} (namespace tag : string)
                       end)
                    default_ctx [] el (traversal_limit, s);
   Ok (snd r).
+
+(* ---- NSIterateChildren / NSFindChildrenIterateCtx / NSFindOneChild(Ctx) ---- *)
+(* constants of goxmldsig v1.5.0 (xml_constants.go): dsig.Namespace, dsig.SignatureTag *)
+Definition ds_ns := "http://www.w3.org/2000/09/xmldsig#".
+Definition ds_signature_tag := "Signature".
+
+Definition e_limit : err := EOther "limit".
+Definition e_undeclared : err := EOther "undeclared-prefix".
+(* the label of sub_context errors is Ns.v's; the harness maps both goxmldsig messages to "reserved-ns" *)
+Definition sub_ctx (ctx : nsctx) (attrs : list attr) : res nsctx :=
+  match sub_context ctx attrs with Ok c => Ok c | Err _ => Err (EOther "reserved-ns") end.
+
+(* NSIterateChildren + the closure of NSFindChildrenIterateCtx, specialised to what NSFindOneChildCtx and findSignature's
+   search for SignedInfo do with it: stop at the FIRST child element that resolves to (namespace, tag).
+   Every child ELEMENT looked at costs one unit of the shared limit (ctx.CheckLimit), is sub-contexted and must have a
+   declared prefix. Result: index among the child tokens and the element, and the remaining limit. *)
+Fixpoint find_child_loop (ctx' : nsctx) (namespace tag : string) (ks : list node) (i : nat) (lim : nat)
+  : res (option (nat * node) * nat) :=
+  match ks with
+  | [] => Ok (None, lim)
+  | k :: r =>
+      match k with
+      | Elem sp tg attrs _ =>
+          match lim with
+          | O => Err e_limit
+          | S lim' =>
+              do c2 <- sub_ctx ctx' attrs;
+              match lookup_prefix c2 sp with
+              | None => Err e_undeclared
+              | Some ns => if (ns =?s namespace) && (tg =?s tag) then Ok (Some (i, k), lim')
+                           else find_child_loop ctx' namespace tag r (S i) lim'
+              end
+          end
+      | _ => find_child_loop ctx' namespace tag r (S i) lim
+      end
+  end.
+Definition find_one_child (ctx : nsctx) (el : node) (namespace tag : string) (lim : nat) : res (option (nat * node) * nat) :=
+  do ctx' <- sub_ctx ctx (attrs_of el);
+  find_child_loop ctx' namespace tag (kids_of el) 0 lim.
+
+
+(* NSFindOneChild(el, namespace, tag): default context, fresh limit; the element found (nil when there is none) *)
+Definition ns_find_one_child (el : node) (namespace tag : string) : res (option node) :=
+  do r <- find_one_child default_ctx el namespace tag traversal_limit;
+  Ok (option_map snd (fst r)).
